@@ -71,6 +71,8 @@ func (p *packageParse) unpack(data []byte) (msgs []*Message, err error) {
 			return count == 2
 		})
 		if index == len(data)-1 {
+			// 调用方会复用读缓冲区 消息必须持有自己的数据
+			data = bytes.Clone(data)
 			jtMsg := jt808.NewJTMessage()
 			if err := jtMsg.Decode(data); err != nil {
 				return nil, fmt.Errorf("%w [%x]", err, data)
@@ -93,7 +95,7 @@ func (p *packageParse) unpack(data []byte) (msgs []*Message, err error) {
 		if end == -1 {
 			break
 		}
-		originalData := p.historyData[:end]
+		originalData := bytes.Clone(p.historyData[:end])
 		jtMsg := jt808.NewJTMessage()
 		if err := jtMsg.Decode(originalData); err != nil {
 			p.historyData = p.historyData[end:]
